@@ -365,7 +365,7 @@ func finish(p *propInfo, tier string, seed int, m *merged, wall time.Duration, e
 		caps = fmt.Sprintf(" caps_hit=%v", keys(m.capsHit))
 	}
 	fmt.Printf("%s tier=%s evaluations=%d transitions=%d states=%d exhaustive=%v%s violations=%d wall=%.1fs\n", p.id, tier,
-		m.counters["evaluations"], m.counters["transitions"], m.setSize("states"), m.exhaustive && len(m.capsHit) == 0, caps, unlisted, wall.Seconds())
+		m.counters["evaluations"], m.counters["transitions"], m.setSize("states"), m.exhaustive && len(m.capsHit) == 0 && len(m.harnessErrs) == 0, caps, unlisted, wall.Seconds())
 	return code
 }
 
